@@ -396,7 +396,12 @@ impl Engine for CrashEngine {
                     // a hang candidate is re-run twice alone before being reported
                     let mut confirmed = 0;
                     let mut other: Option<Reply> = None;
-                    for _ in 0..2 {
+                    // while the minimiser tries candidates one timeout is taken at its word (the
+                    // minimised tape is verified afterwards in a fresh process, with confirmation)
+                    if std::env::var_os("VERIF_MINIMISING").is_some() {
+                        confirmed = 2;
+                    }
+                    for _ in 0..(2 - confirmed) {
                         match isolated(d.entry as u32, &d.bytes) {
                             Ok(Reply::Timeout) => confirmed += 1,
                             Ok(r) => {
